@@ -1964,3 +1964,61 @@ mutant("c16-handlerstore-offall-unlocked", "C16", "C16-D1", "store.go",
 	e.funcs = nil""",
        """func (e *handlerStore[T]) offAll() {
 	e.funcs = nil""")
+
+# F35 / F36
+mutant("c09-f36-map-value-slices-skipped", "C09", "C09-D10", "parser/json/binary.go",
+       """			// Any other slice: its elements can hold binary data.
+			err := r.reconstructValue(mv)
+			if err != nil {
+				return err
+			}
+
+""", "")
+mutant("c09-f35-struct-any-field-not-recognised", "C09", "C09-D11", "parser/json/binary.go",
+       """			done, err := r.replacePlaceholder(fv)
+			if err != nil {
+				return err
+			}
+			if done {
+				continue
+			}
+""", "")
+mutant("c09-f35-second-unwrap-not-recognised", "C09", "C09-D11", "parser/json/binary.go",
+       """	// Check twice. rv can be a pointer to an interface.
+	if k == reflect.Interface || k == reflect.Ptr {
+		if done, err := r.replacePlaceholder(rv); done || err != nil {
+			return err
+		}
+		rv = rv.Elem()
+		k = rv.Kind()
+	}
+
+	switch k {
+	case reflect.Slice:
+		sk := rv.Type().Elem().Kind()
+
+		switch sk {
+		case reflect.Ptr, reflect.Interface, reflect.Struct, reflect.Slice, reflect.Map:
+			sl := rv.Len()""",
+       """	// Check twice. rv can be a pointer to an interface.
+	if k == reflect.Interface || k == reflect.Ptr {
+		rv = rv.Elem()
+		k = rv.Kind()
+	}
+
+	switch k {
+	case reflect.Slice:
+		sk := rv.Type().Elem().Kind()
+
+		switch sk {
+		case reflect.Ptr, reflect.Interface, reflect.Struct, reflect.Slice, reflect.Map:
+			sl := rv.Len()""")
+mutant("c10-f35-placeholder-num-unchecked", "C10", "C10-D1", "parser/json/binary.go",
+       """	if n < 1 || n >= len(r.buffers) {
+		return false, errInvalidPlaceholderNumValue
+	}
+	slot.Set(reflect.ValueOf(r.buffers[n]))""",
+       """	if n >= len(r.buffers) {
+		return false, errInvalidPlaceholderNumValue
+	}
+	slot.Set(reflect.ValueOf(r.buffers[n]))""")
